@@ -683,6 +683,25 @@ def fiber_el(rng, uid, raman=False, short=False, lo=20, hi=130):
               'att_in': rng.choice([0, 0, 0, 1.5])}
     el = {'uid': uid, 'type': 'RamanFiber' if raman else 'Fiber', 'type_variety': 'SSMF' if raman else rng.choice(FIBERS),
           'params': params}
+    r = rng.random()
+    if r < 0.15:
+        # normal-dispersion fibres (beta2 > 0: "minus" NZDSF, DCF-like spans) and low positive dispersion
+        params['dispersion'] = rng.choice([-8.0e-6, -2.5e-6, -4.0e-6, -1.7e-5, -1.0e-4, 4.0e-6])
+    elif r < 0.25:
+        # dispersion with a slope, zero crossing inside / near the propagated band (s/m/m and s/m/m/m)
+        params['dispersion'] = rng.choice([-1.0e-6, -0.5e-6, 0.5e-6, 1.0e-6, 3.0e-6, -6.0e-6])
+        params['dispersion_slope'] = rng.choice([58.0, 80.0, 45.0, -58.0])
+    elif r < 0.35:
+        # per-frequency dispersion table, both signs
+        off = rng.choice([7.3e9, 3.1e9, -4.7e9])      # zero crossings off the channel grid
+        fr = [x + off for x in (185.0e12, 188.5e12, 191.0e12, 193.0e12, 194.5e12, 197.0e12)]
+        shape = rng.choice(['cross', 'neg', 'pos', 'zigzag'])
+        val = {'cross': [-6e-6, -3.5e-6, -1.5e-6, 0.4e-6, 1.8e-6, 4e-6],
+               'neg': [-9e-6, -8e-6, -7e-6, -6e-6, -5.5e-6, -4e-6],
+               'pos': [1.2e-5, 1.4e-5, 1.55e-5, 1.67e-5, 1.75e-5, 1.9e-5],
+               'zigzag': [3e-6, -2e-6, 2.5e-6, -1.5e-6, 2e-6, -3e-6]}[shape]
+        k = rng.uniform(0.7, 1.3)
+        params['dispersion_per_frequency'] = {'frequency': fr, 'value': [v * k for v in val]}
     if raman:
         params['length'] = round(rng.uniform(60, 110), 3)
         params['con_in'], params['con_out'] = 0.5, 0.5
@@ -840,7 +859,7 @@ def gen_path_case(rng, flavour=None, thorough=False):
            'nli_params': {'method': method, 'dispersion_tolerance': 1, 'phase_shift_tolerance': 0.1,
                           'computed_channels': None}}
     return {'kind': 'path', 'flavour': flavour, 'eq': eq, 'topo': topo, 'src': src, 'dst': dst, 'spectrum': spectrum,
-            'sim': sim, 'power_dbm': rng.choice([None, None, 0, 2, -2, 5])}
+            'sim': sim, 'power_dbm': rng.choice([None, None, 0, 2, -2, 5]), 'updates': gen_updates(rng)}
 
 
 class Tracer:
@@ -855,6 +874,7 @@ class Tracer:
         self.pdepth = 0        # nesting of primitives (apply_attenuation_db -> apply_attenuation_lin)
         self.saved = []
         self.keep = []         # keeps every observed object alive so that id() stays unique
+        self.mute = False      # update_snr calls of the harness' own reference receiver are not logged
 
     def __enter__(self):
         import gnpy.core.elements as E
@@ -942,8 +962,11 @@ class Tracer:
         oupd = E.Transceiver.update_snr
 
         def upd_w(self_, *args):
-            tr.updates.append({'el': self_, 'args': [None if s is None else np.array(s, dtype=float).copy() for s in args]})
-            return oupd(self_, *args)
+            res = oupd(self_, *args)
+            if not tr.mute:
+                tr.updates.append({'el': self_, 'fig': trx_figures(self_),
+                                   'args': [None if s is None else np.array(s, dtype=float).copy() for s in args]})
+            return res
         tr.saved.append((E.Transceiver, 'update_snr', oupd))
         E.Transceiver.update_snr = upd_w
         return self
@@ -953,6 +976,51 @@ class Tracer:
             setattr(obj, name, orig)
         self.saved = []
         return False
+
+
+FIGS = ['osnr_ase', 'osnr_nli', 'snr', 'osnr_ase_01nm', 'snr_01nm']
+
+
+def trx_figures(el):
+    """what a Transceiver reports at this moment (copies): the five figures, their raw values, the baud rates"""
+    if getattr(el, 'snr', None) is None:
+        return None
+    fig = {nm: np.array(getattr(el, nm), dtype=float) for nm in FIGS}
+    fig.update({'raw_' + nm: np.array(getattr(el, 'raw_' + nm), dtype=float) for nm in FIGS})
+    fig['baud_rate'] = np.array(el.baud_rate, dtype=float)
+    return fig
+
+
+DEFAULT_UPDATES = [[38.0], [40.0, 35.0, {'pc': 1, 'lo': 30.0, 'hi': 45.0}], [None, 45.0]]
+
+
+def update_args(spec, n):
+    """concrete arguments of one update_snr call: None, a scalar dB value, or a per-channel array"""
+    import random as _random
+    out = []
+    for s in spec:
+        if s is None or isinstance(s, (int, float)):
+            out.append(None if s is None else float(s))
+        else:
+            r = _random.Random(s['pc'])
+            out.append(np.array([r.uniform(s['lo'], s['hi']) for _ in range(n)]))
+    return out
+
+
+def gen_updates(rng):
+    """2-4 successive re-evaluations of the receiver: tx OSNR only, tx + add/drop OSNRs, per-channel arrays, None"""
+    def one():
+        r = rng.random()
+        tx = rng.choice([35.0, 38.0, 40.0, 45.0, 100.0, round(rng.uniform(25, 50), 3)])
+        if r < 0.3:
+            return [tx]
+        pc = {'pc': rng.randint(0, 10 ** 6), 'lo': 28.0, 'hi': 48.0}
+        if r < 0.55:
+            return [rng.choice([33.0, 35.0, 38.0, 41.0])] * rng.randint(1, 3) + [tx]
+        if r < 0.8:
+            return [pc, rng.choice([None, 36.0]), dict(pc, pc=pc['pc'] + 1)]
+        return [None, rng.choice([None, 30.0, pc]), tx]
+    return [one() for _ in range(rng.randint(2, 4))]
 
 
 def drive_path(case):
@@ -982,6 +1050,22 @@ def drive_path(case):
             with np.errstate(all='ignore'), warnings.catch_warnings():
                 warnings.simplefilter('ignore')
                 si = propagate(path, req, eq)
+                # the receiver is re-evaluated several times on this one propagation (as propagate_and_optimize_mode
+                # does when it explores modes, or an API user with another Tx OSNR): every call is logged with the
+                # figures it leaves, and repeated on a reference receiver that only ever saw this one call
+                rx = path[-1]
+                if getattr(rx, 'snr', None) is not None:
+                    for spec in case.get('updates', DEFAULT_UPDATES):
+                        args = update_args(spec, len(si.frequency))
+                        rx.update_snr(*args)
+                        tr.mute = True
+                        try:
+                            ref_rx = copy.deepcopy(rx)
+                            ref_rx._calc_snr(si)
+                            ref_rx.update_snr(*args)
+                        finally:
+                            tr.mute = False
+                        tr.updates[-1]['fresh'] = trx_figures(ref_rx)
         return {'path': path, 'calls': tr.calls, 'updates': tr.updates, 'si': si, 'req': req}
     finally:
         SimParams.set_params(saved)
@@ -1131,13 +1215,13 @@ def trx_terms(rng, res, k):
     out = []
     calls = {id(c['el']): c for c in res['calls'] if c['kind'] == 'Transceiver'}
     for u in res['updates']:
-        el = u['el']
+        el, fig = u['el'], u['fig']
         c = calls.get(id(el))
-        if c is None or getattr(el, 'snr', None) is None:
+        if c is None or fig is None:
             continue
         b = c['before']
         n = len(b['f'])
-        idx = sorted(rng.sample(range(n), min(n, k)))
+        idx = sorted(rng.sample(range(n), min(n, k if 'fresh' not in u else 2)))
         for i in idx:
             args = []
             for s in u['args']:
@@ -1146,10 +1230,8 @@ def trx_terms(rng, res, k):
                 else:
                     v = float(np.broadcast_to(s, (n,))[i])
                     args.append(f'(Some {fql(math.pow(10.0, -v / 10.0))})')
-            with np.errstate(all='ignore'):
-                rep = [float(x[i]) for x in (el.osnr_ase, el.osnr_nli, el.snr, el.osnr_ase_01nm, el.snr_01nm)]
-                raw = [float(x[i]) for x in (el.raw_osnr_ase, el.raw_osnr_nli, el.raw_snr, el.raw_osnr_ase_01nm,
-                                             el.raw_snr_01nm)]
+            rep = [float(fig[nm][i]) for nm in FIGS]
+            raw = [float(fig['raw_' + nm][i]) for nm in FIGS]
             out.append((f'run_trx ({chlit(snap_chs(b, [i])[0])}) {listlit(args)}', el.uid, i, raw, rep))
     return out
 
@@ -1177,29 +1259,46 @@ def check_trx_line(ctx, case, line, uid, i, raw, rep):
 
 
 def trx_identity_failures(res):
-    """reported figures obey 1/GSNR = 1/OSNR_ASE + 1/SNR_NLI (signal bandwidth and 0.1 nm)"""
+    """after EVERY update_snr call: reported figures obey 1/GSNR = 1/OSNR_ASE + 1/SNR_NLI (signal bandwidth and
+    0.1 nm), the 0.1 nm figures are the signal-bandwidth ones rescaled by 12.5 GHz / baud rate, and the figures depend
+    only on the raw figures and the arguments of that call (same as on a receiver that saw only this call)"""
     out = []
+    ncall = {}
     for u in res['updates']:
-        el = u['el']
-        if getattr(el, 'snr', None) is None:
+        el, fig = u['el'], u['fig']
+        if fig is None:
             continue
+        ncall[id(el)] = ncall.get(id(el), 0) + 1
+        where = f'{el.uid} after update_snr call #{ncall[id(el)]}'
+        inv = np.vectorize(inv_lin, otypes=[float])
         with np.errstate(all='ignore'):
-            g = np.array([inv_lin(float(x)) for x in el.snr])
-            o = np.array([inv_lin(float(x)) for x in el.osnr_ase])
-            nl = np.array([inv_lin(float(x)) for x in el.osnr_nli])
-            g01 = np.array([inv_lin(float(x)) for x in el.snr_01nm])
-            o01 = np.array([inv_lin(float(x)) for x in el.osnr_ase_01nm])
-            br = np.array(el.baud_rate, dtype=float)
-        bad = ~relclose(g, o + nl, REL)
-        if bad.any():
-            i = int(np.argmax(bad))
-            out.append(('reported_identity', f'{el.uid} channel #{i}: 1/snr = {g[i]!r} but 1/osnr_ase + 1/osnr_nli = '
-                        f'{o[i] + nl[i]!r}'))
-        bad = ~relclose(g01, o01 + nl * 12.5e9 / br, REL)
-        if bad.any():
-            i = int(np.argmax(bad))
-            out.append(('reported_identity_01nm', f'{el.uid} channel #{i}: 0.1 nm figures: 1/snr_01nm = {g01[i]!r} but '
-                        f'1/osnr_ase_01nm + 1/osnr_nli(0.1nm) = {o01[i] + nl[i] * 12.5e9 / br[i]!r}'))
+            g, o, nl, g01, o01 = (inv(fig[nm]) for nm in ('snr', 'osnr_ase', 'osnr_nli', 'snr_01nm', 'osnr_ase_01nm'))
+            br = fig['baud_rate']
+            bad = ~relclose(g, o + nl, REL)
+            if bad.any():
+                i = int(np.argmax(bad))
+                out.append(('reported_identity', f'{where}, channel #{i}: 1/snr = {g[i]!r} but 1/osnr_ase + 1/osnr_nli = '
+                            f'{o[i] + nl[i]!r}'))
+            bad = ~relclose(g01, o01 + nl * 12.5e9 / br, REL)
+            if bad.any():
+                i = int(np.argmax(bad))
+                out.append(('reported_identity_01nm', f'{where}, channel #{i}: 0.1 nm figures: 1/snr_01nm = {g01[i]!r} but '
+                            f'1/osnr_ase_01nm + 1/osnr_nli(0.1nm) = {o01[i] + nl[i] * 12.5e9 / br[i]!r}'))
+            for nm, x, x01 in (('osnr_ase', o, o01), ('snr', g, g01)):
+                bad = ~relclose(x01, x * 12.5e9 / br, REL)
+                if bad.any():
+                    i = int(np.argmax(bad))
+                    out.append(('reported_01nm_mismatch', f'{where}, channel #{i}: {nm}_01nm and {nm} are not the same '
+                                f'quantity: 1/{nm}_01nm = {x01[i]!r}, 1/{nm} * 12.5GHz/baud = {x[i] * 12.5e9 / br[i]!r}'))
+        fr = u.get('fresh')
+        if fr is not None:
+            for nm in FIGS:
+                if not np.array_equal(fig[nm], fr[nm], equal_nan=True):
+                    i = int(np.argmax(~((fig[nm] == fr[nm]) | (np.isnan(fig[nm]) & np.isnan(fr[nm])))))
+                    out.append(('update_history_dependent',
+                                f'{where}, channel #{i}: reported {nm} = {fig[nm][i]!r} dB, but a receiver that saw the same '
+                                f'propagation and only this call reports {fr[nm][i]!r} dB'))
+                    break
     return out
 
 
@@ -1220,17 +1319,19 @@ def prim_factor(e):
 def path_oracle_c01(res):
     """C01 on the per-element and per-update observations of a propagated path"""
     fails = []
+    scope = True        # sticky: once the first-order NLI estimate exceeds the channel power (or is not a number: a channel
+    #                     exactly at a fibre's zero-dispersion frequency makes the GN closed form 0/0) the rest is not judged
     for c in res['calls']:
         where = f'after {c["kind"]} {c["uid"]}'
-        scope = True
         for k, e in enumerate(c['log']):
             if e['op'] not in PRIM_KIND or 'a' not in e:
                 continue
             w = f'{c["kind"]} {c["uid"]} update #{k + 1} {e["op"]}'
             if e['op'] == 'add_nli':
-                # scope of the property: the NLI increment does not exceed the channel power
+                # scope of the property: the NLI increment does not exceed the channel power (a negative increment
+                # computed by gnpy itself is in scope: it is judged, not excused)
                 x = np.broadcast_to(e['arg'], e['b']['p'].shape)
-                scope = scope and bool(np.all((x >= 0) & (x <= e['b']['p'])))
+                scope = scope and bool(np.all((x <= e['b']['p']) | (x < 0)))
             if not scope:
                 continue
             fails += state_failures(e['a'], 'after ' + w)
@@ -1251,7 +1352,9 @@ def path_oracle_c01(res):
         fin = set(c['before']['f'].tolist())
         if not set(a['f'].tolist()) <= fin or len(set(a['f'].tolist())) != len(a['f']):
             fails.append(('channel_records', f'{where}: channels created or duplicated by the element'))
-    fails += trx_identity_failures(res)
+    res['out_of_scope'] = not scope
+    if scope:
+        fails += trx_identity_failures(res)
     return fails
 
 
@@ -1346,13 +1449,23 @@ def process_path(ctx, case, path_oracle_fn, sample_k, terms, meta):
     ctx.case(small, bool(nontrivial_path(res)))
     for key, desc in path_oracle_fn(res):
         ctx.violation(key, desc, jcase(case))
+    if res.get('out_of_scope'):
+        ctx.count('path_out_of_scope_nli_above_channel_power_or_nan')
     for c in res['calls']:
-        term, exp, prob, summ = elem_term(rng, c, sample_k)
+        try:
+            term, exp, prob, summ = elem_term(rng, c, sample_k)
+        except ValueError:      # a non-finite power / share (judged by the oracle) cannot enter the exact model
+            ctx.count('elem_nonfinite_not_replayed')
+            continue
         terms.append(term)
         meta.append(('elem', case, c, exp, prob, summ))
-    for (term, uid, i, raw, rep) in trx_terms(rng, res, 3):
-        terms.append(term)
-        meta.append(('trx', case, uid, i, raw, rep))
+    try:
+        for (term, uid, i, raw, rep) in trx_terms(rng, res, 3):
+            terms.append(term)
+            meta.append(('trx', case, uid, i, raw, rep))
+    except ValueError:
+        ctx.count('trx_nonfinite_not_replayed')
+    ctx.count('update_snr_calls', len(res['updates']))
     return True
 
 
